@@ -20,17 +20,8 @@ pub fn main(args: &Args) {
     if let Err(e) = build(&pkgs) {
         vrt::machinery(&format!("corpus build failed:\n{}", e.chars().take(3000).collect::<String>()));
     }
-    // one run per oracle class: value/leaf mismatches are reported under C01/C02 labels inside
-    // the explorer; for enums both belong to C09
-    let mut t = run_shards(&pkgs, "C01", args.tier, &[]);
-    let t2 = run_shards(&pkgs, "C02", args.tier, &[]);
-    t.violation_count += t2.violation_count;
-    for v in t2.violations {
-        t.violations.push(v);
-    }
-    for v in &mut t.violations {
-        v.key = v.key.replacen("C01 ", "C09 ", 1).replacen("C02 ", "C09 ", 1);
-    }
+    // values and error leaves both belong to C09 for enum receivers
+    let t = run_shards(&pkgs, "C09", args.tier, &[]);
     rep.absorb(t);
     rep.set("programs", json!(spec.programs.len()));
     rep.rule = format!(
